@@ -1,0 +1,51 @@
+//! Verification accessors for out-of-tree Kani harnesses.
+//!
+//! Compiled ONLY under `--cfg kani` (set by `cargo kani` itself); ordinary builds and the test
+//! suite never see this module. Everything here is a thin `pub` wrapper or re-export: no logic.
+
+// Re-exported so that `#[kani::stub]` can *name* `ElectionTimer::random_duration` (rand's
+// thread-local RNG is not supported by Kani) and so harnesses can read timer deadlines.
+pub use crate::timer::ElectionTimer;
+pub use crate::timer::ReplicationTimer;
+
+use crate::RaftRole;
+use crate::TypeConfig;
+use crate::raft_role::role_state::RaftRoleState;
+
+pub fn is_majority(
+    num: usize,
+    total: usize,
+) -> bool {
+    crate::utils::cluster::is_majority(num, total)
+}
+
+pub fn is_target_log_more_recent(
+    my_last_log_index: u64,
+    my_last_log_term: u64,
+    target_last_log_index: u64,
+    target_last_log_term: u64,
+) -> bool {
+    crate::is_target_log_more_recent(
+        my_last_log_index,
+        my_last_log_term,
+        target_last_log_index,
+        target_last_log_term,
+    )
+}
+
+pub fn if_higher_term_found(
+    my_current_term: u64,
+    term: u64,
+    is_learner: bool,
+) -> bool {
+    crate::if_higher_term_found(my_current_term, term, is_learner)
+}
+
+/// `RaftRole::state()` / `state_mut()` are `pub(crate)`.
+pub fn role_state<T: TypeConfig>(role: &RaftRole<T>) -> &dyn RaftRoleState<T = T> {
+    role.state()
+}
+
+pub fn role_state_mut<T: TypeConfig>(role: &mut RaftRole<T>) -> &mut dyn RaftRoleState<T = T> {
+    role.state_mut()
+}
